@@ -25,6 +25,7 @@ type Violation struct {
 	Rule   string `json:"rule"`
 	Detail string `json:"detail"`
 	FP     string `json:"fp"` // fingerprint: the shape of the failing input (known-findings key)
+	Ctx    []string `json:"ctx,omitempty"` // context tags: rare history events that happened on the failing path
 }
 
 // Monitor evaluates rules on one executed transition. counts[rule]++ must be called for every NON-VACUOUS evaluation.
@@ -198,6 +199,9 @@ func expand(it *item) *result {
 				sc.Viol = append(sc.Viol, m.Step(def.Scn, pre, st, post, res.Counts)...)
 			}
 			sc.Hash = world.Hash(post.Canon())
+		}
+		for i := range sc.Viol {
+			sc.Viol[i].Ctx = world.ContextTags(w.Mem)
 		}
 		res.Succ = append(res.Succ, sc)
 		w.Close()
@@ -535,6 +539,9 @@ func ReplayPath(scn string, path []world.Op) ([]world.Step, []Violation, error) 
 		viol = nil
 		for _, m := range def.Monitors {
 			viol = append(viol, m.Step(def.Scn, pre, st, post, counts)...)
+		}
+		for i := range viol {
+			viol[i].Ctx = world.ContextTags(w.Mem)
 		}
 		if post == nil {
 			break
